@@ -36,6 +36,7 @@ type TransSpec struct {
 	// [ext:T03] (gen/trans_ext03.go) -------------------------------------------------------------------------------
 	Ext03  bool                // struct-typed / pointer-to-struct / embedded fields, struct twins (type B A), composite literals, unsafe reads, slice out-params
 	Ifaces map[string][]string // interface -> the translated structs whose pointers implement it (a sum type; result position only)
+	Heads  []string            // functions of which only the leading simple declarations are translated: g_<Func>_head
 }
 
 type unsupported struct{ msg string }
@@ -377,6 +378,7 @@ func Translate(repo string, spec TransSpec) (out string, err error) {
 		}
 	}
 	t.addFrags20(spec) // [ext:T20]
+	t.addHeads03(spec) // [ext:T03] leading declarations of functions that cannot be translated as a whole
 	t.analyse()
 	var fb strings.Builder // [ext:T20] functions first (they register the constants they use), constants emitted before them
 	for _, fi := range t.order {
